@@ -8,6 +8,7 @@ import (
 	"io"
 	"net/http"
 	"strings"
+	"time"
 
 	utls "github.com/refraction-networking/utls"
 	"golang.org/x/net/http2/hpack"
@@ -33,6 +34,14 @@ type ClientPlan struct {
 	Seg     SegPlan
 	SegDown string
 	Steps   []Step
+
+	// faults at a byte offset of the client->proxy stream
+	AbortKind string // "", "fin", "rst"
+	AbortAt   int
+	StallOn   bool
+	StallAt   int
+	// the first step is enabled only after these clients have finished
+	StartAfterDone []int
 }
 
 type RespRecord struct {
@@ -72,6 +81,14 @@ type Client struct {
 	gate chan struct{}
 	quit chan struct{}
 
+	aborted        bool
+	stalled        bool
+	AbortedAt      time.Duration
+	ConnectedAt    time.Duration
+	started        bool
+	hsDone         chan struct{}
+	HandshakeBytes int // client->proxy bytes written when the handshake completed
+
 	// guarded by W.mu
 	atGate  bool
 	done    bool
@@ -88,18 +105,20 @@ type Client struct {
 	TLSVersion   uint16
 	Resps        []*RespRecord
 	WriteSteps   []int // controller step at which each "write" step executed
+	RawRead      []byte
+	EndedAt      time.Duration // simulated time at which readeof returned
 	StepErrs     []string
 
 	// h2raw
-	Recv      []RecvFrame
-	Streams   map[uint32]*H2Stream
-	GoAway    *Frame
-	ReadErr   string
-	ReadEnded bool
-	notify    chan struct{}
-	hdec      *hpack.Decoder
-	curHdr    *H2Stream
-	hdrBuf    []byte
+	Recv         []RecvFrame
+	Streams      map[uint32]*H2Stream
+	GoAway       *Frame
+	ReadErr      string
+	ReadEnded    bool
+	notify       chan struct{}
+	hdec         *hpack.Decoder
+	curHdr       *H2Stream
+	hdrBuf       []byte
 	hdrEndStream bool
 }
 
@@ -150,6 +169,7 @@ func (c *Client) run() {
 		}
 		c.setGate(false)
 		c.W.mu.Lock()
+		c.started = true
 		c.stepIdx = i
 		c.W.mu.Unlock()
 		if err := c.exec(&c.Plan.Steps[i]); err != nil {
@@ -191,6 +211,7 @@ func (c *Client) exec(s *Step) error {
 		}
 		conn.Record = true
 		c.conn = conn
+		c.ConnectedAt = c.W.Now()
 		if c.Plan.Raw {
 			return nil
 		}
@@ -203,9 +224,13 @@ func (c *Client) exec(s *Step) error {
 		c.tls = u
 		if err := u.Handshake(); err != nil {
 			c.HandshakeErr = err.Error()
+			c.EndedAt = c.W.Now()
 			return err
 		}
 		st := u.ConnectionState()
+		c.W.Net.mu.Lock()
+		c.HandshakeBytes = conn.out.total
+		c.W.Net.mu.Unlock()
 		c.W.mu.Lock()
 		c.HandshakeOK = true
 		c.NegProto = st.NegotiatedProtocol
@@ -215,6 +240,52 @@ func (c *Client) exec(s *Step) error {
 		if st.NegotiatedProtocol == "h2" {
 			c.hdec = hpack.NewDecoder(4096, nil)
 			go c.h2reader()
+		}
+		return nil
+	case "connect_bg":
+		// open the TCP connection now, run the TLS handshake in the background
+		conn, err := c.W.Front.Connect(c.Name, tcpAddr(c.Plan.Addr))
+		if err != nil {
+			c.ConnectErr = err.Error()
+			return err
+		}
+		conn.Record = true
+		c.conn = conn
+		if c.Plan.Raw {
+			return nil
+		}
+		cfg := &utls.Config{InsecureSkipVerify: true, ServerName: c.Plan.Hello.SNI()}
+		u := utls.UClient(conn, cfg, utls.HelloCustom)
+		if err := u.ApplyPreset(c.Plan.Hello.Spec()); err != nil {
+			c.HandshakeErr = "preset: " + err.Error()
+			return err
+		}
+		c.tls = u
+		c.ConnectedAt = c.W.Now()
+		c.hsDone = make(chan struct{})
+		go func() {
+			err := u.Handshake()
+			c.W.mu.Lock()
+			defer c.W.mu.Unlock()
+			defer close(c.hsDone)
+			if err != nil {
+				c.HandshakeErr = err.Error()
+				c.EndedAt = c.W.Now()
+				return
+			}
+			st := u.ConnectionState()
+			c.HandshakeOK = true
+			c.NegProto = st.NegotiatedProtocol
+			c.TLSVersion = st.Version
+		}()
+		return nil
+	case "hswait":
+		if c.hsDone == nil {
+			return fmt.Errorf("no background handshake")
+		}
+		select {
+		case <-c.hsDone:
+		case <-c.quit:
 		}
 		return nil
 	case "tcpwrite":
@@ -286,14 +357,38 @@ func (c *Client) exec(s *Step) error {
 		return nil
 	case "readeof":
 		// wait for the server to close the connection
+		if c.Plan.Raw && c.conn != nil {
+			b, err := io.ReadAll(c.conn)
+			c.W.mu.Lock()
+			c.ReadEnded = true
+			c.EndedAt = c.W.Now()
+			c.RawRead = append(c.RawRead, b...)
+			if err != nil {
+				c.ReadErr = err.Error()
+			}
+			c.W.mu.Unlock()
+			return nil
+		}
 		if c.tls == nil {
 			return fmt.Errorf("not connected")
 		}
-		if c.NegProto == "h2" {
+		if c.br == nil {
+			c.W.mu.Lock()
+			ok := c.HandshakeOK
+			c.W.mu.Unlock()
+			if !ok {
+				return nil // the handshake already failed: the connection is gone
+			}
+			c.br = bufio.NewReader(c.tls)
+		}
+		if c.NegProto == "h2" && c.hdec != nil {
 			for {
 				c.W.mu.Lock()
 				ended := c.ReadEnded
 				ch := c.notify
+				if ended && c.EndedAt == 0 {
+					c.EndedAt = c.W.Now()
+				}
 				c.W.mu.Unlock()
 				if ended {
 					return nil
@@ -308,6 +403,7 @@ func (c *Client) exec(s *Step) error {
 		_, err := io.Copy(io.Discard, c.br)
 		c.W.mu.Lock()
 		c.ReadEnded = true
+		c.EndedAt = c.W.Now()
 		if err != nil {
 			c.ReadErr = err.Error()
 		}
